@@ -471,6 +471,28 @@ fn select_n_nodes(
         dc_count -= 1;
     }
 
+    // The cursor based pass above can come up short even though enough nodes are live:
+    // a data center contributes nothing extra when its cursor lands on the local node
+    // or on a node that was already picked. Top up with the remaining live nodes
+    // (preferring the other data centers) before reporting a shortage.
+    if selected_nodes.len() < n {
+        let remaining = data_centers
+            .iter()
+            .filter(|(dc, _)| dc.as_ref() != local_dc)
+            .chain(data_centers.iter().filter(|(dc, _)| dc.as_ref() == local_dc))
+            .flat_map(|(_, nodes)| nodes.get_nodes().iter().copied());
+
+        for node in remaining {
+            if selected_nodes.len() >= n {
+                break;
+            }
+
+            if node != local_node && !selected_nodes.contains(&node) {
+                selected_nodes.push(node);
+            }
+        }
+    }
+
     if selected_nodes.len() >= n {
         debug!(selected_node = ?selected_nodes, "Nodes have been selected for the given parameters.");
         Ok(selected_nodes)
